@@ -123,6 +123,21 @@ bool Hist::opLookups() {
             if (!match && oc.threw && !satisfies(oc.cls, "invalid_argument")) log.viol("C11", std::string("typed/other_type_wrong_class/") + tn[t] + "/" + oc.cls, esc(G.name) + ":" + esc(Q.name));
         } }
     }
+    // two look-up results held AT THE SAME TIME: each must stay what it was when the other is obtained (accessors returning references)
+    try {
+        if (s.h.elab.size() >= 2) { size_t i = rng.below(s.h.elab.size()), j = rng.below(s.h.elab.size()); const std::string& a = c.header().eventsLabel(i); const std::string& b = c.header().eventsLabel(j); ++n; bump("c11:two_results_held");
+            if (a != s.h.elab[i] || b != s.h.elab[j]) log.viol("C11", "two_results/header.eventsLabel", "eventsLabel(" + std::to_string((unsigned long long)i) + ") and eventsLabel(" + std::to_string((unsigned long long)j) + ") held together read '" + esc(a) + "' and '" + esc(b) + "'"); }
+        if (!s.frames.empty()) { size_t f = rng.below(s.frames.size()); const SFrame& F = s.frames[f];
+            if (F.pts.size() >= 2) { size_t i = rng.below(F.pts.size()), j = rng.below(F.pts.size()); const std::string& a = c.data().frame(f).points().point(i).name(); const std::string& b = c.data().frame(f).points().point(j).name(); ++n; bump("c11:two_results_held");
+                if (a != F.pts[i].name || b != F.pts[j].name) log.viol("C11", "two_results/point.name", "names of two points held together differ from the stored ones"); }
+            if (!F.subs.empty() && F.subs[0].size() >= 2) { size_t i = rng.below(F.subs[0].size()), j = rng.below(F.subs[0].size()); const std::string& a = c.data().frame(f).analogs().subframe(0).channel(i).name(); const std::string& b = c.data().frame(f).analogs().subframe(0).channel(j).name(); ++n; bump("c11:two_results_held");
+                if (a != F.subs[0][i].name || b != F.subs[0][j].name) log.viol("C11", "two_results/channel.name", "names of two channels held together differ from the stored ones"); } }
+        std::vector<size_t> named; for (size_t g = 0; g < s.groups.size(); ++g) if (!s.groups[g].name.empty()) named.push_back(g);
+        if (named.size() >= 2) { size_t i = named[rng.below(named.size())], j = named[rng.below(named.size())]; const std::string& a = c.parameters().group(i).name(); const std::string& b = c.parameters().group(j).name(); const std::string& da = c.parameters().group(i).description(); ++n; bump("c11:two_results_held");
+            if (a != s.groups[i].name || b != s.groups[j].name || da != s.groups[i].desc) log.viol("C11", "two_results/group.name", "names of two groups held together differ from the stored ones");
+            if (!s.groups[i].params.empty() && !s.groups[j].params.empty()) { size_t p = rng.below(s.groups[i].params.size()), q = rng.below(s.groups[j].params.size()); const Param& A = c.parameters().group(i).parameter(p); const Param& B = c.parameters().group(j).parameter(q); const std::string& an = A.name(); const std::string& bn = B.name(); const std::string& ad = A.description();
+                if (an != s.groups[i].params[p].name || bn != s.groups[j].params[q].name || ad != s.groups[i].params[p].desc) log.viol("C11", "two_results/parameter.name", "names of two parameters held together differ from the stored ones"); } }
+    } catch (const std::exception& e) { log.viol("C11", "two_results/threw", std::string("in-range look-ups threw: ") + e.what()); }
     Outcome none; log.ev("lookups", "accesses=" + std::to_string(n), none); bump("op:lookups"); counts["c11_accesses"] += n;
     // read-only accesses must not change the object
     Snap cur = take(*obj);
